@@ -21,7 +21,7 @@ RULE = ("each case: one client, one mutable file (SDMF/MDMF) or directory; the c
 LEVEL_TEXT = "Random request plans and schedules against a sequential model, with a mechanism-independent non-overlap observation."
 ASSUMPTIONS = ["honest servers; the only failures are operations that fail by themselves (raising modifier, missing/existing child)",
                "an operation counts as finished when the Deferred returned to the caller fires"]
-REQUIRED_CLASSES = ["resolved-with-readcap", "file", "dir", "requested-from-failed-callback", "queued-behind-failure", "writes-in-flight>=2", "read-between-writes", "op-failed-as-expected"]
+REQUIRED_CLASSES = ["via-object-returned-by-create", "resolved-with-readcap", "file", "dir", "requested-from-failed-callback", "queued-behind-failure", "writes-in-flight>=2", "read-between-writes", "op-failed-as-expected"]
 BUDGET = {"quick": 900, "thorough": 7200}
 
 
@@ -43,7 +43,7 @@ def cases(draw):
             kind = draw(st.sampled_from(["set", "set", "set-noover", "delete", "delete", "set_children", "list"]))
             arg = draw(st.integers(0, 3))
         at = draw(st.sampled_from([["start"], ["start"], ["start"], ["after", draw(st.integers(0, max(0, i - 1)))], ["step", draw(st.integers(0, 25))]])) if i else ["start"]
-        ops.append({"kind": kind, "arg": arg, "at": at, "via": draw(st.sampled_from(["w", "w", "w+r"]))})
+        ops.append({"kind": kind, "arg": arg, "at": at, "via": draw(st.sampled_from(["w", "w", "w+r", "created"]))})
     return {"hsalt": draw(st.integers(0, 15)), "threads": draw(st.sampled_from(["sync", "async", "held"])), "mode": mode, "fmt": draw(st.sampled_from(["sdmf", "mdmf"])), "k": draw(st.integers(1, 2)), "n": draw(st.integers(2, 4)), "ops": ops,
             "sched": draw(st.lists(st.integers(0, 9), max_size=draw(st.sampled_from([0, 30, 200]))))}
 
@@ -78,6 +78,8 @@ def run_case(case, ctx):
             return
         cap = r[1].get_uri()
         rocap = r[1].get_readonly_uri()
+        created = r[1] if any(op.get("via") == "created" for op in ops) else None
+        r = None
         g.sched.choices, g.sched.ci = list(case["sched"]), 0
         order = []                  # request order (indices)
         results = {}                # i -> ("ok", v) | ("err", exc)
@@ -92,7 +94,12 @@ def run_case(case, ctx):
             order.append(i)
             events.append(("req", i))
             # a fresh resolution of the same capability string: alone, or together with its read cap (as a directory entry carries it)
-            node = c.nodemaker.create_from_cap(cap) if op.get("via", "w") == "w" else c.nodemaker.create_from_cap(cap, rocap)
+            if op.get("via") == "created":
+                # the object the creating call returned, still held by its caller (as the web mkdir path and SFTP do), next to fresh resolutions of its cap
+                node = created
+                classes.add("via-object-returned-by-create")
+            else:
+                node = c.nodemaker.create_from_cap(cap) if op.get("via", "w") == "w" else c.nodemaker.create_from_cap(cap, rocap)
             if op.get("via") == "w+r":
                 classes.add("resolved-with-readcap")
             kind, arg = op["kind"], op["arg"]
